@@ -51,6 +51,13 @@ func (bucket *Bucket) UUID() (string, error) {
 func (bucket *Bucket) Close(_ context.Context) {
 	traceEnter("Bucket.Close", "%s", bucket)
 
+	bucket.mutex.Lock()
+	alreadyClosed := bucket.closed
+	bucket.mutex.Unlock()
+	if alreadyClosed {
+		return // closing a handle twice must not release the store a second time
+	}
+
 	unregisterBucket(bucket)
 
 	bucket.mutex.Lock()
